@@ -183,12 +183,27 @@ def run_job(job, rec):
                     rec.check(grad.shape == gn.shape and bool(np.all(np.abs(grad - gn) <= 1e-5 * gs + noise)), nm + "-gradient",
                               lambda: f"{nm} ({info['mean']} mean, d={d}, z={z:.3f}): opt_func_gradient {grad} != numerical gradient of opt_func {gn}", rec.context)
 
+        # integer-typed query point: same answers as the same values as floats
+        xi = np.round(x.mean(0) / info["L"] * 2).astype(int)
+        if np.all(np.abs(xi) < 10**6):
+            rec.count("integer_query_cases")
+            for acq, nm in ((ei, "ei"), (ucb, "ucb"), (mv, "maxvar")):
+                a1, a2 = guarded(acq, xi), guarded(acq, xi.astype(float))
+                g1, g2 = guarded(acq.opt_func_gradient, xi), guarded(acq.opt_func_gradient, xi.astype(float))
+                okd = not any(isinstance(v, Raised) for v in (a1, a2, g1, g2)) and np.allclose(a1, a2, rtol=1e-12, atol=0) and np.allclose(g1[1], g2[1], rtol=1e-12, atol=0) \
+                    and np.allclose(g1[0], g2[0], rtol=1e-12, atol=0)
+                rec.check(okd, "depends-on-dtype-of-points", lambda: f"{nm}: integer-typed query point gives {a1!r} / {g1!r}, floats give {a2!r} / {g2!r}", rec.context)
+
         # history: one query array, modified in place between evaluations
         xq = np.array(qs[0], dtype=float)
         for acq in (ei, ucb, mv):
             guarded(acq, xq)
             guarded(acq.opt_func_gradient, xq)
-        xq += 0.21 * info["L"]
+        xq -= 0.08 * info["L"]
+        for acq in (ei, ucb, mv):
+            guarded(acq, xq)
+            guarded(acq.opt_func_gradient, xq)
+        xq += 0.29 * info["L"]
         rec.count("in_place_query_updates")
         for acq, nm in ((ei, "ei"), (ucb, "ucb"), (mv, "maxvar")):
             a1, a2 = guarded(acq, xq), guarded(acq, xq.copy())
